@@ -5,11 +5,12 @@ use std::borrow::Cow;
 use std::sync::atomic::{AtomicUsize, Ordering};
 use std::sync::Arc;
 
-const NAMES: [&str; 3] = ["x-lang", "x-size", "x-any"];
-const DEFAULTS: [&str; 3] = ["d0", "d1", "d2"];
+// the last three are names that occur inside the always-advertised `accept-encoding, range`
+const NAMES: [&str; 6] = ["x-lang", "x-size", "x-any", "accept", "accept-language", "encoding"];
+const DEFAULTS: [&str; 6] = ["d0", "d1", "d2", "d3", "d4", "d5"];
 
 fn transform(i: usize, v: &str) -> String {
-    match i {
+    match i % 3 {
         0 => v.chars().take(1).collect(),
         1 => if v.len() < 3 { "s".into() } else { "l".into() },
         _ => "c".into(),
@@ -56,7 +57,7 @@ impl Group for Serve {
         }
         let n = if ctx.mode == Mode::Quick { 600 } else { 20_000 };
         for _ in 0..n {
-            let mask = *rng.pick(&["0", "1", "01", "02", "012", "12", "-"]);
+            let mask = *rng.pick(&["0", "1", "01", "02", "012", "12", "-", "3", "34", "035", "345", "4"]);
             let k = rng.range(2, 7);
             let reqs: Vec<Vec<&str>> = (0..k).map(|_| (0..mask.trim_matches('-').len().max(1)).map(|_| *rng.pick(&vals)).collect()).collect();
             v.push(mk(mask, &reqs));
